@@ -150,6 +150,18 @@ def instances(maxw):  # noqa: C901
                     Inst(dx, [['_', op, str(a)],
                               [['_', op, str(b)], [['_', op, '1'], 'x']]],
                          fx))
+                # near misses: chains that mix the two kinds (only the
+                # leading run of one kind may be merged)
+                other = 'sign_extend' if op == 'zero_extend' else \
+                    'zero_extend'
+                add('BvMergeExtend',
+                    Inst(dx, [['_', op, str(a)],
+                              [['_', op, str(b)], [['_', other, '1'], 'x']]],
+                         fx))
+                add('BvMergeExtend',
+                    Inst(dx, [['_', op, str(a)],
+                              [['_', other, str(b)], [['_', op, '1'], 'x']]],
+                         fx))
         # previous bit-width reductions
         for n, m in itertools.product(range(1, 3), repeat=2):
             d = [['declare-const', '__w', BV(w)],
